@@ -52,6 +52,22 @@ FIRST = {
     "C16-6": "C01.R1 at once; **C16 missed**; as C16-5",
     "C10-6": "C08.R7 / C09 / C11 / C13 at once; **C10 missed**; weight-source rule re-checked under C10.R10",
     "C06-4": "exit 2 at first (two return paths in `__tensor_unflatten__`); the reader is now analysed per path, codec verdicts count for C06.R5",
+    # fourth round (-7 / -8)
+    "C02-7": "**missed at first** (C04 too): `view` instead of `reshape` in `group()` only fails on a non-contiguous weight; view clause added to the layout rule (C02.R4) - and, generalised to every operand flattening (C07.R9, C11.R8), it reported **F27 / F28 on the unchanged tree**",
+    "C02-8": "exit 2 at first under C02 (C16.R6 at once); the overflow rule is re-checked under C02.R8",
+    "C03-7": "exit 2 at first; converse clause of C03.R6 added (a per-axis request becomes per-tensor only when the axis has one element)",
+    "C03-8": "C12.R3 at once; **C03 missed**; the calibration scale rules are re-checked under C03.R7",
+    "C04-7": "exit 2 at first (native field table not extracted); the native analyser now requires a contiguity guard before a raw storage read (C04.R1)",
+    "C06-7": "C14.R1 at once; **C06 missed**; the guard rules are re-checked under C06.R9",
+    "C06-8": "**missed at first** (C14 too); 0-dim clause added (a per-tensor scale is 0-dim on every construction path), C06.R9",
+    "C07-7": "exit 2 at first (28 undecided obligations); the label typing now tracks stride-0 (`expand`ed) scales: handing one to `_weight_int8pack_mm` is a violation of C07.R1",
+    "C07-8": "**missed at first** (C13 too): an augmented assignment through a local alias of a tensor field was not a write; now an in-place effect (C13.R3), re-checked under C07.R8",
+    "C09-7": "C08.R6 at once; **C09 missed**; C09.R8 added (qtypes are compared by value: `deepcopy` duplicates them)",
+    "C10-7": "C03.R7 / C12.R3 at once; **C10 missed**; C10.R11 added (every tensor a module puts in its state_dict is its own: scale buffers are freshly computed values, weights are copied)",
+    "C12-8": "**missed at first**; `batch skipped` clause added to C12.R4 (every path of the calibration hooks that passes the guard updates the buffer)",
+    "C13-7": "exit 2 at first (no handle attribute found); a container of handles is accepted when it belongs to the instance and reported when it is created in the class body (C13.R1)",
+    "C15-7": "exit 2 at first (module-level name unknown to the column interpreter); purity rule C15.R12 added",
+    "C15-8": "**missed at first**; C15.R11 added (every left shift of the packers applies to a value widened to 16 bits or more)",
 }
 
 
